@@ -43,6 +43,11 @@ fn has_minute_prefix_then_more(b: &[u8]) -> bool {
     (b.len() > 5 && ref_offset(&b[..5]).is_some()) || (b.len() > 6 && ref_offset(&b[..6]).is_some())
 }
 
+/// "+HH:" - an hour followed by a dangling separator
+fn hour_then_colon(b: &[u8]) -> bool {
+    b.len() == 4 && ref_offset(&b[..3]).is_some() && b[3] == b':'
+}
+
 fn any_ascii<S: Src, const N: usize>(s: &mut S) -> ([u8; N], usize) {
     let len = s.u8_in(0, N as u8) as usize;
     let mut buf = [0u8; N];
@@ -91,6 +96,8 @@ pub fn offset_ascii<S: Src, const N: usize>(s: &mut S) {
                 None => {
                     if has_minute_prefix_then_more(bytes) {
                         vassert!(s, "C12.offset.rejects_sub_minute_suffix", false);
+                    } else if hour_then_colon(bytes) {
+                        vassert!(s, "C12.offset.rejects_hour_with_trailing_colon", false);
                     } else {
                         vassert!(s, "C12.offset.rejects_malformed", false);
                     }
@@ -110,27 +117,36 @@ pub fn offset_non_ascii<S: Src>(s: &mut S) {
     let cp = s.u32_in(0, 0x10FFFF);
     let Some(ch) = char::from_u32(cp) else { return };
     let pos = s.u8_in(0, 1);
-    let mut text = String::new();
-    text.push('+');
-    if pos == 0 {
-        text.push(ch);
-        text.push('1');
-    } else {
-        text.push('1');
-        text.push(ch);
+    // "+" X "1:00"  or  "+1" X ":00", assembled in a fixed buffer
+    let mut buf = [0u8; 12];
+    buf[0] = b'+';
+    let mut n = 1usize;
+    if pos == 1 {
+        buf[n] = b'1';
+        n += 1;
     }
-    text.push_str(":00");
-    let got = UtcOffset::from_str(&text);
-    let want_ok = ch.is_ascii_digit() && (pos == 1 || ch <= '2') && !(pos == 1 && false);
-    vcover!(s, "C12.offset_utf8.non_ascii_numeric_reachable", !ch.is_ascii() && ch.is_numeric());
+    n += ch.encode_utf8(&mut buf[n..n + 4]).len();
+    if pos == 0 {
+        buf[n] = b'1';
+        n += 1;
+    }
+    buf[n] = b':';
+    buf[n + 1] = b'0';
+    buf[n + 2] = b'0';
+    n += 3;
+    let Ok(text) = core::str::from_utf8(&buf[..n]) else { return };
+    let got = UtcOffset::from_str(text);
+    // hours "X1" need X in 0..=2, hours "1X" any digit
+    let want_ok = ch.is_ascii_digit() && (pos == 1 || ch <= '2');
+    vcover!(s, "C12.offset_utf8.non_ascii_reachable", !ch.is_ascii());
+    vcover!(s, "C12.offset_utf8.digit_reachable", want_ok);
     match got {
-        Ok(_) => vassert!(s, "C12.offset_utf8.rejects_non_ascii_digits", ch.is_ascii_digit()),
+        Ok(_) => vassert!(s, "C12.offset_utf8.rejects_non_ascii_digits", want_ok),
         Err(e) => {
             vassert!(s, "C12.offset_utf8.accepts_ascii_digits", !want_ok);
             vassert!(s, "C12.offset_utf8.rejection_is_range_error", e.kind() == ErrorKind::Range);
         }
     }
-    core::mem::forget(text);
 }
 
 /// MonthCode::try_from_utf8 on every byte string of up to 5 bytes: accepted iff M dd [L]
@@ -204,6 +220,8 @@ pub fn tz_identifier<S: Src, const N: usize>(s: &mut S) {
                     if off.is_none() && !(len == 1 && bytes[0] == b'Z') {
                         if has_minute_prefix_then_more(bytes) {
                             vassert!(s, "C12.tzid.rejects_sub_minute_offset_identifier", false);
+                        } else if hour_then_colon(bytes) {
+                            vassert!(s, "C12.tzid.rejects_hour_with_trailing_colon", false);
                         } else {
                             vassert!(s, "C12.tzid.rejects_malformed_offset", false);
                         }
@@ -228,5 +246,6 @@ crate::harnesses! { REGISTRY;
     c12_offset_ascii_8 [unwind 14] = |s| offset_ascii::<_, 8>(s);
     c12_offset_non_ascii [unwind 12] = |s| offset_non_ascii(s);
     c12_month_code [unwind 8] = |s| month_code(s);
+    c12_tz_identifier_4 [unwind 9] = |s| tz_identifier::<_, 4>(s);
     c12_tz_identifier_5 [unwind 10] = |s| tz_identifier::<_, 5>(s);
 }
